@@ -6,6 +6,7 @@ Require Import Stab Act Spec SpecProofs Gen_GateTable Gen_RevTrack GenProofs_Rev
 Require GenProofs_TabMeas.
 Require Gen_AddError GenProofs_AddError.
 Require Mpp MppRev.
+Require Pauli Sem Refine Run FrameRun RevTrack.
 
 (* (1) Tie G: every unitary undo_* routine of the reverse tracker (translated from sparse_rev_frame_tracker.cc), applied per
        detector to (d in xs[q], d in zs[q]), is the unsigned action of the table's INVERSE gate; nothing refused, nothing
@@ -114,3 +115,25 @@ Theorem C03_reversed_product_same_content :
 Proof. exact MppRev.reversed_product_same_content. Qed.
 Print Assumptions C03_reversed_targets_are_reversed_products. Print Assumptions C03_splitter_takes_the_first_written_product.
 Print Assumptions C03_reversed_product_same_content.
+
+(* Whole circuits: the reverse tracker's sensitivity decides which errors flip a detector.  For any run of Clifford steps and
+   Hermitian measurements, a detector given by flags d, its sensitivity revtrack l d (flagged measured operators multiplied in,
+   pulled back through every Clifford) and the tracker's anticommutation check gauge_ok: the flip parity of the detector in the
+   frame sampler started with the Pauli E - for every choice of the randomisation bits - is [E, revtrack l d]. *)
+Theorem C03_error_flips_detector_iff_it_anticommutes_with_the_sensitivity :
+  forall (n : nat) (l : list (Run.op * option bool)) (E : Pauli.pauli) (zs d : list bool),
+  Forall (fun x => FrameRun.ok_op n (fst x)) l -> Refine.wf n E -> RevTrack.gauge_ok n l d ->
+  RevTrack.fparz E zs l d = Sem.acom E (RevTrack.revtrack n l d).
+Proof. exact RevTrack.error_flips_iff_anticommutes. Qed.
+(* ... and a detector that passes the check and whose sensitivity at the start commutes with the initial group takes the same
+   value in every run the semantics allows (soundness of the "non-deterministic detector" test). *)
+Theorem C03_checked_detectors_are_deterministic :
+  forall (n : nat) (l la : list (Run.op * option bool)) (s s' : (Pauli.pauli -> Pauli.pauli) * (Pauli.pauli -> Pauli.pauli))
+         (Sg S' : Sem.state) (d : list bool),
+  Forall (fun x => FrameRun.ok_op n (fst x)) l -> Run.good n (fst s) (snd s) -> Run.Inv n (fst s) Sg ->
+  Run.sim_run n s l s' -> Run.sem_run Sg la S' -> map fst la = map fst l ->
+  RevTrack.gauge_ok n l d -> (forall g, Refine.wf n g -> Sg g -> Sem.acom g (RevTrack.revtrack n l d) = false) ->
+  RevTrack.par_rec la d = RevTrack.par_rec l d.
+Proof. exact RevTrack.detector_deterministic. Qed.
+Print Assumptions C03_error_flips_detector_iff_it_anticommutes_with_the_sensitivity.
+Print Assumptions C03_checked_detectors_are_deterministic.
